@@ -35,6 +35,9 @@ package deferred
 //@   loop[0] invariant index_in_range [C09]: 0 <= i && i <= len(dcw.putCb)
 //@   loop[0] step one_callback_per_iteration_no_skip [C20]: i + 1 == athead(0, i) + 1 + ite(cb.once, 0, 1) && len(dcw.putCb) == athead(0, len(dcw.putCb)) - ite(cb.once, 1, 0)
 //@   call[dynamic#0] assert calls_current_callback [C20]: arg0 == len(content)
+//@   call[append#0] assert removal_keeps_registration_order [C20]: ref(arg0) == ref(dcw.putCb) && len(arg0) == i && ref(arg1) == subref(ref(dcw.putCb), i + 1) && len(arg1) == len(dcw.putCb) - (i + 1)
+//@   note removal_keeps_registration_order: the entry is removed by moving the tail putCb[i+1:] down onto position i, so the
+//@   note remaining callbacks keep their relative (registration) order; slice contents themselves are not modelled
 //@   loop[0] invariant still_open [C20]: !old(dcw.closed) && fx(dcw) == old(fx(dcw)) && dcw.w == old(dcw.w)
 //@   ensures closed_err [C20]: old(dcw.closed) ==> err == carstorage.ErrClosed && fx(dcw) == old(fx(dcw)) && dcw.w == old(dcw.w)
 //@   call[WritableStorage.Put#0] assert delegate [C20]: arg1 == ctx && arg2 == key && ref(arg3) == ref(content) && ref(arg0) == ref(dcw.w) && !old(dcw.closed)
